@@ -57,7 +57,7 @@ func c20List(r *Rand) []Val {
 }
 
 func (propC20) Gen(r *Rand) *Plan {
-	nops := r.Range(2, 24)
+	nops := r.Range(2, 24*Scale)
 	var ops []Op
 	h := func() int { return r.Intn(c20Handles) }
 	for i := 0; i < nops; i++ {
